@@ -192,8 +192,10 @@ def args_for(E, f, mem, over):
 def battery_binding(claim):
     """replay binding shared by the C03 obligations: live nodes (oracle_tu payment_outcome_battery): payments that are
     claimed, failed by the recipient, sent twice under one id, abandoned and then claimed, failed then followed by a
-    claimed one, and a two-part payment whose first part fails while the second is still in flight (no terminal event
-    yet); the payer's events are asserted at every step by the library's test utilities"""
+    claimed one, a two-part payment whose first part fails while the second is still in flight (no terminal event
+    yet), and a two-part send of which one part is committed with its monitor update in progress while the other fails
+    at once and cannot be retried (no terminal event, still listed, id refused), restarts from an older ChannelManager
+    (terminal event not yet handled: reported again; BOLT 12 invoice received but paid only afterwards: pending, refused); the payer's events are asserted at every step by the library's test utilities"""
     c = claim if z3.is_expr(claim) else X.zbool(claim)
     return Binding('payment_outcome_battery', [z3.IntVal(1)], [z3.If(c, 0, 1)], parse=lambda t: [0 if t[0] == '0' else 1], line_fn=lambda v: '1',
                    which='oracle_tu', via_solver=True, domain=[(1, 1)], panic=False)
@@ -419,8 +421,8 @@ def startup_replay(S, D):
             else:
                 claim = z3.And(d2 == POP[variant], cnt2 == V.parts0.t)
                 desc = 'a payment that already reached its outcome (fulfilled / abandoned) is left as it is'
-        S.prove(ids[0], E, [V.parts0.t >= 0], claim, desc, [], given_no_panic=True, bounds='entry %s, arbitrary fields' % variant)
-        S.no_panic(tag + '.nopanic', E, [V.parts0.t >= 0, V.parts0.t < 1 << 20], 'no debug assertion is tripped: the entry\'s state is one the chosen branch can handle (insert() must not be asked to add an HTLC to a payment that has not been sent)', [], only=lambda p: 'overflow' not in p[1])
+        S.prove(ids[0], E, [V.parts0.t >= 0], claim, desc, [battery_binding(claim)], given_no_panic=True, bounds='entry %s, arbitrary fields' % variant)
+        S.no_panic(tag + '.nopanic', E, [V.parts0.t >= 0, V.parts0.t < 1 << 20], 'no debug assertion is tripped: the entry\'s state is one the chosen branch can handle (insert() must not be asked to add an HTLC to a payment that has not been sent)', [battery_binding(z3.BoolVal(False))], only=lambda p: 'overflow' not in p[1])
         S.witness(ids[1], E, [V.parts0.t >= 0], z3.BoolVal(True))
 
 
@@ -459,7 +461,8 @@ def partial_send_failure(S, D):
     arg = X.Tup([X.Ref(res_c), X.Tup([X.Opaque('path'), X.Opaque('session priv')])])
     rv = S.call(E, f, [X.Ref(env), arg], mem)
     forgotten = X.zint(rv.d) == 1
-    S.prove(ids[0], E, [], forgotten == z3.And(is_err, kind.t != AE('MonitorUpdateInProgress')),
-            'after a partially failed multi-part send the payment forgets exactly the parts whose send failed outright; a part whose send reports "monitor update in progress" WAS committed and stays in flight (otherwise the payment could be reported failed, and its id reused, while an HTLC is pending)', [],
+    claim = forgotten == z3.And(is_err, kind.t != AE('MonitorUpdateInProgress'))
+    S.prove(ids[0], E, [], claim,
+            'after a partially failed multi-part send the payment forgets exactly the parts whose send failed outright; a part whose send reports "monitor update in progress" WAS committed and stays in flight (otherwise the payment could be reported failed, and its id reused, while an HTLC is pending)', [battery_binding(claim)],
             bounds='the filter closure of handle_pay_route_err on an arbitrary per-part send result')
     S.witness(ids[1], E, [is_err], forgotten)
